@@ -17,12 +17,20 @@ from . import tlaval
 
 VERIF = os.path.dirname(os.path.dirname(os.path.abspath(__file__)))
 SPECS = os.path.join(VERIF, "specs")
-REPO_SRC = "/repo/src"
+# The tree under test. Always /repo/src for the registered commands; tools/seedtest.py points the checks at a scratch
+# copy (outside /repo and /verif) through HIO_VERIF_SRC so that /repo itself is never modified by seed testing.
+REPO_SRC = os.path.abspath(os.environ.get("HIO_VERIF_SRC") or "/repo/src")
+MAX_VIOLATIONS = 8      # a check stops (exit 1) as soon as it has reported this many violations
+WATCHDOG_S = 5.0        # a call into the real code that has not returned by then is the observable outcome "hang"
 TLA_CP = "/opt/veriftools/tla/tla2tools.jar:/opt/veriftools/tla/CommunityModules-deps.jar"
 
 
 class MachineryError(Exception):
     pass
+
+
+class StopEarly(Exception):
+    """enough violations have been reported: the check stops exploring and finishes with exit 1"""
 
 
 class TlcResult:
@@ -97,6 +105,7 @@ class Ctx:
         self.samples = []
         self.violations = []     # (what, replay_obj)
         self.known_hits = {}     # finding id -> what
+        self.divergences = []
         self.notes = []
         self.tlc_runs = []
         self.exhaustive = None
@@ -121,7 +130,7 @@ class Ctx:
                 fh.write(text)
         with open(os.path.join(d, "run.cfg"), "w") as fh:
             fh.write(cfg)
-        cmd = ["java", "-XX:+UseParallelGC", "-Xmx8g", "-cp", TLA_CP, "tlc2.TLC", "-workers", str(workers),
+        cmd = ["java", "-XX:+UseParallelGC", "-Xmx8g", "-Djava.io.tmpdir=" + d, "-cp", TLA_CP, "tlc2.TLC", "-workers", str(workers),
                "-metadir", os.path.join(d, "meta"), "-noGenerateSpecTE", "-config", "run.cfg"]
         if simulate:
             cmd += ["-simulate", simulate]
@@ -168,6 +177,10 @@ class Ctx:
     def case(self, key, sample=None):
         """count one explored case; key identifies distinct non-trivial cases"""
         self.evaluations += 1
+        if HANGS[0] > 2 * MAX_VIOLATIONS and not self.violations:
+            # safety net: a hang is never a legitimate outcome, whatever the per-property oracle made of the run
+            self.violation("the real code did not return within %ss in %d replays" % (WATCHDOG_S, HANGS[0]), {"hangs": HANGS[0]})
+            raise StopEarly("real code hangs")
         if key is not None:
             self.distinct.add(key if isinstance(key, (str, int, tuple)) else json.dumps(key, sort_keys=True, default=str))
         if sample is not None and len(self.samples) < 5:
@@ -199,10 +212,21 @@ class Ctx:
             self.violations.append((what, path))
             print("VIOLATION property=%s replay=%s" % (self.prop, path))
             print("  what: %s" % what)
+            sys.stdout.flush()
         else:
             self.violations.append((what, None))
+        if len(self.violations) >= MAX_VIOLATIONS:
+            raise StopEarly("%d violations reported" % len(self.violations))
+
+    def divergence(self, what):
+        """the real run differs from the model's prediction on this property's projection, but the property itself,
+        evaluated on the real run, holds: recorded (evidence + one note), not an alarm"""
+        self.divergences.append(what)
 
     def finish(self, level="model_checking", rule="", assumptions=(), extra=None):
+        if self.divergences:
+            self.note("%d runs differ from the model without breaking %s (first: %s)" %
+                      (len(self.divergences), self.prop, self.divergences[0][:300]))
         for fid, what in self.known_hits.items():
             print("KNOWN-FINDING: property=%s %s: %s" % (self.prop, fid, self.findings[fid]["what"]))
         cov = {
@@ -216,6 +240,7 @@ class Ctx:
             "tlc_runs": self.tlc_runs,
             "known_findings_hit": sorted(self.known_hits),
             "notes": self.notes,
+            "model_divergences_not_violations": len(self.divergences),
         }
         if self.exhaustive is not None:
             cov["exhaustive"] = bool(self.exhaustive)
@@ -228,14 +253,16 @@ class Ctx:
             "level": level,
             "coverage": cov,
             "assumptions": list(assumptions) + [
-                "hio imported from /repo/src (working tree) under /venv/bin/python 3.12 (generator.close() returns None)",
+                "hio imported from %s (working tree) under /venv/bin/python 3.12 (generator.close() returns None)" % REPO_SRC,
                 "TLC 1.8 and the TLA+ standard/Community modules are correct",
             ],
             "wall_s": round(time.time() - self.t0, 2),
             "violations": len(self.violations),
         }
-        os.makedirs(os.path.join(VERIF, "evidence"), exist_ok=True)
-        with open(os.path.join(VERIF, "evidence", "%s.json" % self.prop), "w") as fh:
+        # seed testing against a scratch tree (HIO_VERIF_SRC) must not overwrite the evidence of the real tree
+        evdir = os.environ.get("HIO_VERIF_EVIDENCE") or os.path.join(VERIF, "evidence")
+        os.makedirs(evdir, exist_ok=True)
+        with open(os.path.join(evdir, "%s.json" % self.prop), "w") as fh:
             json.dump(ev, fh, indent=1, sort_keys=True, default=str)
         print("%s tier=%s seed=%d: states=%d transitions=%d traces=%d evaluations=%d distinct=%d violations=%d known=%d wall=%.1fs" % (
             self.prop, self.tier, self.seed, self.states, self.transitions, self.traces, self.evaluations,
@@ -329,6 +356,9 @@ def validate_traces(ctx, area, module, cfg, traces, gen=None, lens=None, shards=
     return out
 
 
+HANGS = [0]      # calls into the real code stopped by the watchdog in this process
+
+
 class Hang(BaseException):
     """raised inside the real code by the watchdog: the call did not return in time (observable outcome)"""
 
@@ -336,10 +366,11 @@ class Hang(BaseException):
 class watchdog:
     """with watchdog(5): real_code()  -- raises Hang in the main thread if the block runs longer"""
 
-    def __init__(self, seconds=5.0):
-        self.seconds = seconds
+    def __init__(self, seconds=None):
+        self.seconds = seconds or WATCHDOG_S
 
     def _fire(self, signum, frame):
+        HANGS[0] += 1
         raise Hang("no return within %ss" % self.seconds)
 
     def __enter__(self):
@@ -348,7 +379,8 @@ class watchdog:
         self.active = threading.current_thread() is threading.main_thread()
         if self.active:
             self.old = signal.signal(signal.SIGALRM, self._fire)
-            signal.setitimer(signal.ITIMER_REAL, self.seconds)
+            # repeating: code that swallows the first Hang (a bare except around a loop) is interrupted again
+            signal.setitimer(signal.ITIMER_REAL, self.seconds, 1.0)
         return self
 
     def __exit__(self, *a):
